@@ -3,6 +3,9 @@ package main
 import (
 	"errors"
 	"fmt"
+	"github.com/RoaringBitmap/roaring/v2"
+	segment "github.com/blevesearch/scorch_segment_api/v2"
+	"os"
 	"runtime/debug"
 	"sync"
 
@@ -120,6 +123,19 @@ func genHistory(c *ctx) []histStep {
 			}
 			h = append(h, st)
 			continue
+		case 5:
+			if hugeBudget > 0 { // a segment of more than 1 MiB (the builder keeps its output buffer)
+				hugeBudget--
+				st.kind = "huge"
+				for d := 0; d < 2800; d++ { // many small documents: later size estimates stay below the kept capacity
+					st.b = append(st.b, zh.Doc{Fields: []zh.Field{zh.IDField(fmt.Sprintf("h%dx%04d", i, d)),
+						{Name: "body", Stored: true, Typ: 't', Val: c.R.Bytes(400), Len: 1, Toks: []zh.Tok{{Term: fmt.Sprintf("w%d", d%40), Freq: 1}}}}})
+				}
+				h = append(h, st)
+				continue
+			}
+			o.NDocs = c.R.Intn(12)
+			st.kind = "random"
 		case 0: // large, many fields, many terms
 			o.NDocs, o.NFields, o.VocabN, o.DVMask, o.FixedFields = 20+c.R.Intn(40), len(zh.FieldNames), len(zh.Vocab), 31, true
 			st.kind = "large"
@@ -150,10 +166,13 @@ func genHistory(c *ctx) []histStep {
 	return h
 }
 
+// hugeBudget bounds the number of > 1 MiB builds per run
+var hugeBudget = 1
+
 var errRejected = errors.New("rejected by the field validator")
 
 func checkC10(c *ctx) {
-	c.Rule = "histories of 2-6 builds in one process with the garbage collector off (so the pooled builder really is reused): large-then-small, many-fields-then-few, synonym batches followed by plain ones, empty batches, batches rejected by the field validator; every build is compared with (1) the extracted spec_of_batch of ITS batch alone, (2) the extracted pooled-memory model (BuildReuse.hrun) on the abstracted history, (3) the extracted parser's reading of its bytes incl. footer CRC; then 2-8 goroutines build distinct batches concurrently (race detector on), each compared with its own spec; non-trivial = history with >= 3 builds of different kinds"
+	c.Rule = "histories of 2-6 builds in one process with the garbage collector off (so the pooled builder really is reused): large-then-small, many-fields-then-few, synonym batches followed by plain ones, empty batches, batches rejected by the field validator, builds of more than 1 MiB, merges abandoned mid-way between builds; up to two earlier segments of the history are kept and must still answer as they did after every later build; every build is compared with (1) the extracted spec_of_batch of ITS batch alone, (2) the extracted pooled-memory model (BuildReuse.hrun) on the abstracted history, (3) the extracted parser's reading of its bytes incl. footer CRC; then 2-8 goroutines build distinct batches concurrently (race detector on), each compared with its own spec; non-trivial = history with >= 3 builds of different kinds"
 	c.Assumptions = append(c.Assumptions, "sync.Pool: Get returns any pooled object or a fresh one (the model's pick); data-race freedom of concurrent builds is observed (race detector), not proved")
 	old := debug.SetGCPercent(-1)
 	defer debug.SetGCPercent(old)
@@ -170,7 +189,26 @@ func checkC10(c *ctx) {
 		}
 		var observed []obsT
 		desc := ""
+		type kept struct {
+			sb   *zap.SegmentBase
+			want string
+			step int
+		}
+		var retained []kept
 		for si, st := range h {
+			// a merge abandoned in the middle of its term loop before this build (builds and merges
+			// may share pooled helpers)
+			if si > 0 && len(retained) > 0 && c.R.Chance(4) {
+				in := retained[c.R.Intn(len(retained))].sb
+				ch := make(chan struct{})
+				data, _ := zh.FileBytes(in)
+				cl := &closer{k: uint64(c.R.Intn(len(data) + 64)), ch: ch}
+				apath := zh.TmpPath("c10a")
+				zap.VerifMerge([]segment.Segment{in}, []*roaring.Bitmap{nil}, apath, st.mode, ch, cl)
+				os.Remove(apath)
+				desc += fmt.Sprintf("  (a merge of build %d's segment abandoned after %d bytes)\n", retained[0].step, cl.k)
+				c.Count("abandoned_merges_in_history")
+			}
 			kinds[st.kind] = true
 			c.Count("build_" + st.kind)
 			desc += fmt.Sprintf("  build %d (%s, mode %d): %s\n", si, st.kind, st.mode, clip(st.b.Sx().String()))
@@ -222,7 +260,7 @@ func checkC10(c *ctx) {
 				c.Violation(fmt.Sprintf("C10 build %d of the history: %s\nhistory:\n%s", si, bad, desc), false)
 				return
 			}
-			if si%2 == 0 {
+			if si%2 == 0 && st.kind != "huge" {
 				if bad := parseBytesAgainst(c, data, spec, allParts); bad != "" {
 					c.Violation(fmt.Sprintf("C10 build %d of the history, bytes decoded by the extracted parser: %s\nhistory:\n%s", si, bad, desc), false)
 					return
@@ -231,6 +269,17 @@ func checkC10(c *ctx) {
 			ev, fields, pids := abstractBatch(st.b, spec)
 			events = append(events, ev)
 			observed = append(observed, obsT{observedReuse(cont, fields, pids), len(events) - 1})
+			// segments built earlier in the history are immutable: they still answer as they did
+			for _, k := range retained {
+				again, err := zh.Dump(k.sb)
+				if err != nil || again.Sx().String() != k.want {
+					c.Violation(fmt.Sprintf("C10 the segment of build %d no longer answers as it did once build %d has run (err %v): the later build wrote into memory the earlier segment still uses\nhistory:\n%s", k.step, si, err, desc), false)
+					return
+				}
+			}
+			if len(retained) < 2 {
+				retained = append(retained, kept{sb, cont.Sx().String(), si})
+			}
 		}
 		// the pooled-memory model on the same history
 		a := ask(c, sx.L(sx.N(zh.ReqReuse), sx.List(events)))
